@@ -385,7 +385,11 @@ BUILTIN_EXC = {'RuntimeWarning', 'UserWarning', 'DeprecationWarning', 'Warning',
                'NameError'}
 
 
+# decorators whose effect on calls is modelled (binding of methods, memoisation) or nil (metadata, abstractness)
+KNOWN_DECORATORS = frozenset(('classmethod', 'staticmethod', 'property', 'lru_cache', 'cache', 'abstractmethod',
+                              'wraps'))
 FILE_METHODS = frozenset(a_ for a_ in dir(__import__('io').TextIOWrapper) if not a_.startswith('__'))
+LOCAL_IMPORTS = '\x00imports'      # key of the per-scope table of function-local imports
 PLACEHOLDER_LOG = []     # where a formatted text had no abstract spelling and was replaced by a placeholder
 HAZARD_LOG = []      # (kind, node, relpath): every hazard any interpreter of this process recorded (see main.py)
 VISITED = set()      # qualified names of every function of the analysed package that was interpreted in this process
@@ -683,6 +687,12 @@ class Interp:
                 raise
             return r.raised
         memo_key = None
+        for d_ in getattr(fn, 'decorator_list', None) or ():
+            # a decorator replaces the function by whatever it returns: only the ones with a model may be passed over
+            dn = ast.unparse(d_.func if isinstance(d_, ast.Call) else d_)
+            if not (dn.split('.')[-1] in KNOWN_DECORATORS or
+                    (dn.split('.')[-1] in ('setter', 'getter', 'deleter') and '.' in dn)):
+                raise Unsupported('decorator @%s on %s' % (dn, fn.name), fn, module.relpath)
         if getattr(fn, 'decorator_list', None) and any(
                 ast.unparse(d_.func if isinstance(d_, ast.Call) else d_).split('.')[-1] in ('lru_cache', 'cache')
                 for d_ in fn.decorator_list):
@@ -1184,6 +1194,11 @@ class Interp:
         if op in ('==', '!=') and (isinstance(a, (DictV, Obj)) or isinstance(b, (DictV, Obj))):
             res = self.struct_eq(a, b)
             return res if op == '==' else not res
+        if op in ('==', '!=') and isinstance(a, ListV) and isinstance(b, ListV) and \
+                not getattr(a, 'is_array', False) and not getattr(b, 'is_array', False):
+            # two Python lists / tuples: entry by entry (identical entries are equal)
+            res = self.struct_eq(a, b)
+            return res if op == '==' else not res
         if op in ('==', '!='):
             if isinstance(a, (str, bool)) or isinstance(b, (str, bool)) or a is None or b is None:
                 if isinstance(a, (Rat, ListV, Elem, Obj)) or isinstance(b, (Rat, ListV, Elem, Obj)):
@@ -1458,6 +1473,9 @@ class Frame:
             self.exec_block(st.body)
             return
         if isinstance(st, ast.Assert):
+            # an assertion that fails raises; one that cannot be decided ends the analysis (I.truth)
+            if not I.truth(self.ev(st.test), st):
+                raise _RaisedExc(Raised('AssertionError', st, [self.ev(st.msg)] if st.msg is not None else []))
             return
         if isinstance(st, ast.AnnAssign):
             if st.value is not None:
@@ -1495,8 +1513,32 @@ class Frame:
                         self.env[a.asname or a.name] = self.entity(r, st)
             return
         if isinstance(st, (ast.Import, ast.ImportFrom)):
+            # an import inside a function binds the name in that function's scope (and its closures)
+            if isinstance(st, ast.ImportFrom) and st.level:
+                raise Unsupported('relative import inside a function', st, self.module.relpath)
+            loc = self.env.get(LOCAL_IMPORTS) if LOCAL_IMPORTS in self.env else None
+            if loc is None:
+                loc = self.env[LOCAL_IMPORTS] = {}
+            for a in st.names:
+                if isinstance(st, ast.Import):
+                    if a.asname:
+                        loc[a.asname] = ('module', a.name)
+                    else:
+                        loc[a.name.split('.')[0]] = ('module', a.name.split('.')[0])
+                elif a.name == '*':
+                    raise Unsupported('star import inside a function', st, self.module.relpath)
+                else:
+                    loc[a.asname or a.name] = ('object', st.module, a.name)
             return
         raise Unsupported('statement %s' % type(st).__name__, st, self.module.relpath)
+
+    def alias(self, name):
+        """what an imported name stands for: an import of the enclosing function(s) first, then the module's"""
+        if LOCAL_IMPORTS in self.env:
+            loc = self.env[LOCAL_IMPORTS]
+            if name in loc:
+                return loc[name]
+        return self.module.aliases.get(name)
 
     def def_defaults(self, fn):
         """{parameter: value} of the defaults of a lambda / nested def, evaluated in the defining scope"""
@@ -1879,6 +1921,9 @@ class Frame:
             base = self.ev(target.value)
             if isinstance(base, Obj):
                 if base.ci is not None:
+                    if I.repo.find_method(base.ci, '__setattr__', missing_ok=True):
+                        raise Unsupported('attribute store on an object whose class defines __setattr__', target,
+                                          self.module.relpath)
                     got = I.repo.find_method(base.ci, target.attr + '.setter', missing_ok=True)
                     if got:
                         I.call_function(got[0].module, got[1], [v], {}, self_obj=base, owner=got[0])
@@ -2387,7 +2432,7 @@ class Frame:
         # dotted global (np.pi, c.Na, module.attr)
         if isinstance(n.value, ast.Name) and n.value.id not in self.env:
             r = I.repo.resolve_expr(self.module, n)
-            al = self.module.aliases.get(n.value.id)
+            al = self.alias(n.value.id)
             if al and al[0] == 'module':
                 full = al[1] + '.' + n.attr
                 if full in GLOBAL_ATTRS:
@@ -2531,7 +2576,7 @@ class Frame:
             return Builtin(name)
         r = I.repo.lookup(self.module, name)
         if r is None:
-            al = self.module.aliases.get(name)
+            al = self.alias(name)
             if al is not None:
                 if al[0] == 'object' and '%s.%s' % (al[1], al[2]) in I.native:
                     return NativeRef('%s.%s' % (al[1], al[2]))
@@ -2597,13 +2642,13 @@ class Frame:
                 chain.append(v.attr)
                 v = v.value
             if isinstance(v, ast.Name) and v.id not in self.env:
-                al = self.module.aliases.get(v.id)
+                al = self.alias(v.id)
                 if al and al[0] == 'module':
                     return al[1] + '.' + '.'.join(reversed(chain))
                 if al and al[0] == 'object' and al[1] not in self.I.repo.modules:
                     return al[1] + '.' + al[2] + '.' + '.'.join(reversed(chain))
         if isinstance(f, ast.Name) and f.id not in self.env:
-            al = self.module.aliases.get(f.id)
+            al = self.alias(f.id)
             if al and al[0] == 'object':
                 return al[1] + '.' + al[2]
             if f.id in self.module.functions:
@@ -3137,16 +3182,17 @@ def builtin_call(I, fr, name, args, kwargs, n):
             else:
                 raise Unsupported('isinstance against %r' % (x,), n)
         return res
-    if name in ('min', 'max') and len(args) == 1 and isinstance(args[0], Elem) and isinstance(args[0].r, Rat):
-        nm = '%s{%r}' % (name.upper(), args[0].r)
-        return I.D.sym(nm)
+    if name in ('min', 'max') and len(args) == 1 and not kwargs and isinstance(args[0], Elem) and \
+            isinstance(args[0].r, Rat) and _root_atom(I, args[0].r) is None:
+        return I.D.sym('%s{%r}' % (name.upper(), args[0].r))        # extremum of a vector of unknown length
     if name in ('min', 'max'):
-        vals = args[0].items if len(args) == 1 and isinstance(args[0], ListV) else args
-        best = vals[0]
-        for v in vals[1:]:
-            if I.compare('<' if name == 'min' else '>', v, best, n):
-                best = v
-        return best
+        # the builtin and numpy's reduction agree on numbers: one model (incl. the uninterpreted extremum)
+        if kwargs:
+            raise Unsupported('%s() with keyword arguments' % name, n)
+        seq = args[0] if len(args) == 1 else ListV(list(args))
+        if len(args) == 1 and not isinstance(seq, (ListV, Elem)):
+            seq = ListV(list(fr.iter_items(seq, n)))
+        return I.native['numpy.' + name](I, fr, [seq], {}, n)
     if name == 'abs':
         v = args[0]
         if isinstance(v, Rat) and v.is_const():
@@ -4398,6 +4444,60 @@ def _np_real(I, fr, args, kwargs, n):
     return v
 
 
+SURELY_POSITIVE = ('T', 'kb', 'Na', 'h', 'pi')       # and every unit factor U<..>
+
+
+def canonical_extremum(I, which, items):
+    """uninterpreted extremum of a finite set of scalars, in a form that does not depend on how it was spelled:
+    order-insensitive, duplicates merged, an extremum of the same kind among the arguments flattened
+    (max(0, max(a, b)) = max(0, a, b)), and a factor that is certainly positive (temperature, physical constants, unit
+    factors, the magnitude of the leading coefficient) pulled out: max(0, a R T, b R T) = R T max(0, a, b)"""
+    tag = which.upper() + '{'
+    flat = []
+    for x in items:
+        nm = None
+        if x.is_monomial() and not x.is_const() and not x.iszero():
+            (k_, c_), = x.n.t.items()
+            if c_ == 1 and len(k_) == 1 and k_[0][1] == 1:
+                nm = k_[0][0]
+        if nm is not None and nm in I.extrema and nm.startswith(tag):
+            flat.extend(I.extrema[nm])
+        else:
+            flat.append(x)
+    nz = [x for x in flat if not x.iszero()]
+    factor = C(1)
+    if nz and all(not x.f for x in nz):
+        monos = [dict(x.n.content()[1]) for x in nz]
+        shared = set.intersection(*[set(m_) for m_ in monos])
+        g = {}
+        for a_ in shared:
+            if a_ in SURELY_POSITIVE or a_.startswith('U<'):
+                e_ = min(m_[a_] for m_ in monos)
+                if e_ != 0:
+                    g[a_] = e_
+        for a_, e_ in sorted(g.items()):
+            factor = factor * Rat(Poly.atom(a_, e_))
+        if g:
+            flat = [x if x.iszero() else x / factor for x in flat]
+            nz = [x for x in flat if not x.iszero()]
+        # magnitude of the leading coefficient of the (spelling-independent) first entry
+        def lead(x):
+            return abs(x.n.t[min(x.n.t)])
+        first = min(nz, key=lambda x: repr(x / C(lead(x))))
+        c_ = lead(first)
+        if c_ != 1:
+            flat = [x if x.iszero() else x / C(c_) for x in flat]
+            factor = factor * C(c_)
+    uniq = {}
+    for x in flat:
+        uniq[repr(x)] = x
+    if len(uniq) == 1:
+        return factor * list(uniq.values())[0]
+    name = '%s%s}' % (tag, ' | '.join(sorted(uniq)))
+    I.extrema[name] = list(uniq.values())
+    return factor * I.D.sym(name)
+
+
 def _np_minmax(which):
     def h(I, fr, args, kwargs, n):
         v = _arg(args, kwargs, 0, 'a')
@@ -4426,13 +4526,7 @@ def _np_minmax(which):
             except Unsupported:
                 pass
             if all(isinstance(x, Rat) for x in v.items):
-                # uninterpreted extremum of a finite set of scalars (order-insensitive, duplicates merged)
-                uniq = {}
-                for x in v.items:
-                    uniq[repr(x)] = x
-                name = '%s{%s}' % (which.upper(), ' | '.join(sorted(uniq)))
-                I.extrema[name] = list(uniq.values())
-                return I.D.sym(name)
+                return canonical_extremum(I, which, list(v.items))
         raise Unsupported('np.%s operand' % which, n)
     return h
 
